@@ -42,6 +42,9 @@ var c01pScripts = [][]simEvent{
 	// a peer is deleted and added again
 	{{Op: "ann", Bot: 0, A: 0, B: 0}, {Op: "ann", Bot: 1, A: 0, B: 1}, {Op: "delpeer", Bot: 0}, {Op: "addpeer", Bot: 0}, {Op: "up", Bot: 0},
 		{Op: "ann", Bot: 0, A: 0, B: 1}},
+	// a peer is deleted for good (nothing of it may come back), a session goes down for good
+	{{Op: "ann", Bot: 0, A: 0, B: 0}, {Op: "ann", Bot: 1, A: 1, B: 0}, {Op: "ann", Bot: 0, A: 1, B: 1}, {Op: "delpeer", Bot: 0}, {Op: "wd", Bot: 1, A: 1},
+		{Op: "ann", Bot: 1, A: 0, B: 1}, {Op: "down", Bot: 1}},
 }
 
 type c01pResult = simParkScriptResult
@@ -92,7 +95,7 @@ func simPanicSite(p string) string {
 func TestVerif_C01_Park(t *testing.T) {
 	r := vr.Start(t, "C01", "park")
 	defer r.Finish()
-	r.Rule = "whole daemon, three peers (configurations eee, eic, sss), three scripts (sources announce / withdraw / flap; the observer flaps while routes change; a peer is deleted and added again) x every record the daemon logs and every Write / Close it issues on a connection: the goroutine emitting it held there while the next 1, 2, 3 events of the script are applied, then released, the rest of the script applied; at the quiescent end the oracles of part sim: every established peer's accumulated view = a fresh export of the Loc-RIB (C01), RIBs and Adj-RIB-Ins = the latest un-withdrawn route per source (C02); non-trivial = distinct (configuration, script, park site, n)"
+	r.Rule = "whole daemon, three peers (configurations eee, eic, sss), four scripts (sources announce / withdraw / flap; the observer flaps while routes change; a peer is deleted and added again; a peer is deleted and a session lost for good) x every record the daemon logs and every Write / Close it issues on a connection: the goroutine emitting it held there while the next 1, 2, 3 events of the script are applied, then released, the rest of the script applied; at the quiescent end the oracles of part sim: every established peer's accumulated view = a fresh export of the Loc-RIB (C01), RIBs and Adj-RIB-Ins = the latest un-withdrawn route per source (C02); non-trivial = distinct (configuration, script, park site, n)"
 	r.Assumptions = append(r.Assumptions, "park sites are the daemon's log records and its Write / Close calls on the (harness-owned) connections; sites reached with a peer's FSM lock or the table lock taken are skipped (counted in extra.skipped_under_lock)")
 	if r.ReplayPath() != "" {
 		var c c01pCase
